@@ -1,4 +1,5 @@
 mod alloc;
+mod dbg;
 mod domain;
 mod fault;
 mod mux;
@@ -8,6 +9,7 @@ mod tables;
 mod trunc;
 mod streams;
 mod util;
+mod wire;
 
 use serde_json::Value;
 
@@ -52,6 +54,19 @@ fn main() {
             let mut out = mux::Out { w: &mut w, events: 0 };
             for c in cases.iter() {
                 mux::run_case(c, &mut out);
+            }
+            let n = out.events;
+            drop(out);
+            w.flush().unwrap();
+            println!("{{\"cases\":{},\"events\":{}}}", cases.len(), n);
+        }
+        "wire-run" => {
+            let cases = read_cases(&a[2]);
+            let mut w = BufWriter::new(File::create(&a[3]).unwrap());
+            let mut out = mux::Out { w: &mut w, events: 0 };
+            out.ev(serde_json::json!({"e":"reset","id":"wire"}));
+            for (i, c) in cases.iter().enumerate() {
+                wire::run_case(c, i as u64, &mut out);
             }
             let n = out.events;
             drop(out);
@@ -143,5 +158,18 @@ fn main() {
             println!("{{\"cases\":{},\"events\":{}}}", cases.len(), n);
         }
         _ => usage(),
+    }
+}
+
+#[cfg(test)]
+mod t {
+    #[test]
+    fn dbg_parse() {
+        let t = mp4::TrakBox::default();
+        let v = crate::dbg::parse(&format!("{:?}", t));
+        println!("{}", serde_json::to_string(&v).unwrap());
+        let m = mp4::MetaBox::default();
+        println!("{}", serde_json::to_string(&crate::dbg::parse(&format!("{:?}", m))).unwrap());
+        println!("{:?}", m);
     }
 }
